@@ -7,13 +7,16 @@ package mcp
 // handshake, and it must not leave the session marked initialized.
 
 import (
+	"bufio"
 	"context"
 	"encoding/json"
 	"fmt"
+	"io"
 	"net/http"
 	"net/http/httptest"
 	"slices"
 	"strings"
+	"sync"
 	"testing"
 
 	"github.com/modelcontextprotocol/go-sdk/internal/verifx"
@@ -108,9 +111,124 @@ func c06ModernRequestRacesSetup() vs.Verdict {
 	return f.verdict(strings.TrimSpace(obs))
 }
 
+// c06StateRace: the lifecycle transitions are atomic.  Several writers of the session state run on
+// goroutines of their own (logging/setLevel, server/discover, the take-back of a refused 2026-07-28
+// request) and can overlap the gate's serial ones; whatever the schedule, a repeated initialized is
+// rejected, and a session whose only requests were refused serves nothing.
+//
+//	kind "initialized-vs-setlevel": initialize, then - written back to back - logging/setLevel,
+//	initialized, initialized.  The InitializedHandler runs exactly once and the level is set.
+//	kind "takeback-vs-initialize": on a fresh session a 2026-07-28 call of an unknown tool (refused,
+//	its marking taken back) and a legacy initialize, back to back; then a legacy tools/list.  The list
+//	is served iff the initialize was accepted.
+func c06StateRace(kind string) vs.Verdict {
+	f := &e1Fail{prefix: "c06 state-race " + kind}
+	ctx := context.Background()
+	vs.Quiet(true)
+	inits, lists := 0, 0
+	s := NewServer(&Implementation{Name: "srv", Version: "1"}, &ServerOptions{Logger: quietLogger,
+		InitializedHandler: func(context.Context, *InitializedRequest) { inits++ }})
+	AddTool(s, &Tool{Name: "t"}, func(ctx context.Context, r *CallToolRequest, in map[string]any) (*CallToolResult, any, error) {
+		return &CallToolResult{}, nil, nil
+	})
+	s.AddReceivingMiddleware(func(next MethodHandler) MethodHandler {
+		return func(ctx context.Context, method string, req Request) (Result, error) {
+			if method == "tools/list" {
+				lists++
+			}
+			return next(ctx, method, req)
+		}
+	})
+	ct, st := NewInMemoryTransports()
+	ss, err := s.Connect(ctx, st, nil)
+	if err != nil {
+		return vs.Verdict{Bad: "connect failed: " + err.Error(), Sig: "c06 state-race connect-failed"}
+	}
+	peer := ct.rwc
+	var mu sync.Mutex
+	replies := map[string]bool{} // id -> answered with an error
+	drained := make(chan struct{})
+	vs.Go(func() {
+		defer close(drained)
+		sc := bufio.NewScanner(peer)
+		sc.Buffer(make([]byte, 1<<20), 1<<20)
+		for sc.Scan() {
+			var m struct {
+				ID    json.RawMessage `json:"id"`
+				Error json.RawMessage `json:"error"`
+			}
+			if json.Unmarshal(sc.Bytes(), &m) == nil && m.ID != nil {
+				mu.Lock()
+				replies[string(m.ID)] = m.Error != nil
+				mu.Unlock()
+			}
+		}
+	})
+	send := func(line string) { io.WriteString(peer, line+"\n") }
+	const meta = `"_meta":{"io.modelcontextprotocol/protocolVersion":"2026-07-28","io.modelcontextprotocol/clientInfo":{"name":"c","version":"1"},"io.modelcontextprotocol/clientCapabilities":{}}`
+	const initialize = `{"jsonrpc":"2.0","id":1,"method":"initialize","params":{"protocolVersion":"2025-06-18","capabilities":{},"clientInfo":{"name":"peer","version":"1"}}}`
+	obs := ""
+	switch kind {
+	case "initialized-vs-setlevel":
+		send(initialize)
+		vs.WaitIdle()
+		vs.Quiet(false)
+		send(`{"jsonrpc":"2.0","id":2,"method":"logging/setLevel","params":{"level":"debug"}}`)
+		send(`{"jsonrpc":"2.0","method":"notifications/initialized","params":{}}`)
+		send(`{"jsonrpc":"2.0","method":"notifications/initialized","params":{}}`)
+		vs.WaitIdle()
+		vs.Quiet(true)
+		ss.mu.Lock()
+		lvl, ip := ss.state.LogLevel, ss.state.InitializedParams
+		ss.mu.Unlock()
+		switch {
+		case inits != 1:
+			f.failf("initialized-handler-ran-twice", "initialize, then setLevel, initialized, initialized back to back: the InitializedHandler ran %d times", inits)
+		case ip == nil:
+			f.failf("initialized-forgotten", "the accepted initialized notification is no longer recorded in the session state")
+		case lvl != "debug":
+			f.failf("level-lost", "the log level reads %q after logging/setLevel debug was answered", lvl)
+		}
+		obs = fmt.Sprintf("inits=%d level=%s", inits, lvl)
+	case "takeback-vs-initialize":
+		vs.Quiet(false)
+		send(`{"jsonrpc":"2.0","id":7,"method":"tools/call","params":{"name":"no-such-tool","arguments":{},` + meta + `}}`)
+		send(initialize)
+		vs.WaitIdle()
+		send(`{"jsonrpc":"2.0","id":9,"method":"tools/list","params":{}}`)
+		vs.WaitIdle()
+		vs.Quiet(true)
+		mu.Lock()
+		refused7, ok7 := replies["7"]
+		initRefused, ok1 := replies["1"]
+		listRefused, ok9 := replies["9"]
+		mu.Unlock()
+		switch {
+		case !ok7 || !ok1 || !ok9:
+			f.failf("unanswered", "answers: %v", replies)
+		case !refused7:
+			f.failf("unknown-tool-served", "the call of an unknown tool was answered with a result")
+		case initRefused && !listRefused:
+			f.failf("served-without-handshake", "the 2026-07-28 call was refused and the initialize was refused (as a duplicate, while the refused call's marking was still in place): no request was ever accepted on this session, yet a legacy tools/list was served")
+		case initRefused && lists > 0:
+			f.failf("served-without-handshake", "the refused legacy tools/list reached the handler layer")
+		case !initRefused && listRefused:
+			f.failf("rejected-after-handshake", "initialize was accepted but tools/list was refused")
+		}
+		obs = fmt.Sprintf("initialize-refused=%v list-refused=%v", initRefused, listRefused)
+	}
+	peer.Close()
+	ss.Close()
+	<-drained
+	vs.Quiet(false)
+	return f.verdict(obs)
+}
+
 func TestVerifC06Race(t *testing.T) {
 	env := verifx.LoadEnv("C06")
 	env.Run([]*verifx.Scenario{
 		vs.E1(t, "race/modern-request-races-sse-session-setup", env.Pick(4, 5), vs.Options{}, func() vs.Verdict { return c06ModernRequestRacesSetup() }),
+		vs.E1(t, "race/initialized-vs-setlevel", env.Pick(2, 3), vs.Options{}, func() vs.Verdict { return c06StateRace("initialized-vs-setlevel") }),
+		vs.E1(t, "race/takeback-vs-initialize", env.Pick(2, 3), vs.Options{}, func() vs.Verdict { return c06StateRace("takeback-vs-initialize") }),
 	})
 }
